@@ -16,21 +16,9 @@ UNSIGNED = {"u8", "u16", "u32", "u64", "u128", "usize"}
 
 
 def mir_text():
-    hd = C.hash_dir()
-    out = os.path.join(hd, "mir.txt")
-    stamp = C.source_hash()
-    if C.stamp_ok(out, stamp):
-        return out
-    with C.Lock("mir"):
-        if C.stamp_ok(out, stamp):
-            return out
-        C.log("[S] emitting textual MIR ...")
-        p = C.run(["cargo", "+nightly", "rustc", "--offline", "--lib", "--", "-Zunpretty=mir", "-Awarnings"],
-                  cwd=C.REPO, env={"CARGO_TARGET_DIR": os.path.join(C.WORK, "target-mir")})
-        with open(out, "w") as fh:
-            fh.write(p.stdout)
-        C.write_stamp(out, stamp)
-    return out
+    """textual MIR of the current tree (one emission with spans serves S-widest and the fingerprints)"""
+    from . import engine_fp
+    return engine_fp.mir_spans_text()
 
 
 RE_FN = re.compile(r"^fn (.*?)\((.*)\) -> (.*) \{$")
@@ -64,6 +52,10 @@ def parse_mir(path):
     with open(path) as fh:
         for ln in fh:
             ln = ln.rstrip("\n")
+            if " // " in ln:
+                ln = ln.split(" // ")[0].rstrip()      # span comments
+            if ln.lstrip().startswith("//"):
+                continue
             if cur is None:
                 m = RE_FN.match(ln)
                 if m:
